@@ -11,6 +11,14 @@ entries of parameters the model does not have (`beta_values_dict_to_list`), and 
 data (`Database.panel`, one value per individual, sample size = number of individuals) with all the
 entry points, scaled and unscaled.
 
+Round 3: every one of the 8 cells scaled x hessian x bhhh of `calculate_likelihood_and_derivatives` is driven on
+every object (a matrix that is not requested is not read), with its clients `NegativeLikelihood._f/_f_g/_f_g_h`,
+`check_derivatives`, `likelihood_finite_difference_hessian`, `calculate_null_loglikelihood` and the deprecated
+aliases; histories on ONE `Database` shared by several `BIOGEME` objects (`scale_column`, `remove`,
+`define_variable` / `add_column` in between, `estimate` with / without bootstrap, `quick_estimate`, then every entry
+point) against the closed form of the CURRENT table and against the session model `Likelihood.Sess`;
+bootstrap on panel data (`sample_individual_map_with_replacement`); `Database.split` (validation sets = a partition).
+
 * property oracle (independent of the Lean model): L = fsum(w_n * l_n) of the values `simulate`
   reports; scaled = L / N; equal over thread counts, permutations, splits; g, H, BHHH the same sums;
 * model (Lean, `Likelihood.loglike/gradEntry/hessEntry/bhhhEntry` on `Float`): the engine's order of
@@ -42,11 +50,22 @@ MANIFEST = dict(
     '(beta_vector_by_name, beta_vector_order, beta_vector_foreign, beta_vector_same_point, beta_vector_incomplete). Sample size: rows, or for panel '
     'data the distinct ids; every row belongs to exactly one individual (sample_size, individuals_partition, individuals_sum); value, gradient, '
     'Hessian and BHHH are scaled by that same sample size (scaled_sample_size, scaled_derivatives). '
+    'Round 3: the whole option matrix of calculate_likelihood_and_derivatives - for every combination of scaled, hessian, bhhh the function value, every gradient entry, '
+    'every requested Hessian / BHHH entry are those sums, divided by the same sample size when scaled; a matrix that is not requested carries no value; value and gradient do not depend on the '
+    'matrices requested (option_matrix, option_independent); the function handed to the optimiser is minus the unscaled sums (optimiser_function). Histories on one Database shared by several '
+    'objects (Sess: data / fullData aliasing, one engine copy per object, edits in place, estimate with bootstrap): after a bootstrap the engine holds the CURRENT table in every state '
+    '(bootstrap_restores); for every history every object built or bootstrap-estimated since the last edit holds the current table and reports its sum (session_engine_current, '
+    'session_loglike_partial; the guard cannot be dropped: session_stale_witness = finding F-C04-3; fullData is not the table: fullData_not_current). Database.split: numpy.array_split slices '
+    'are a partition, validation sets add up to the table, estimation + validation = the table (db_split_partition, db_split_validation_sum, db_split_estimation_validation). '
     'Tie: real BIOGEME objects over thread counts {1,2,3,N-1,N,N+1,2N,0}, permutations, 2-4 way '
-    'splits, cross-sectional and panel data, dicts in several orders with foreign entries; bit-for-bit reproduction of the engine\'s order of additions by the Float model from the real per-row / per-individual simulated values.',
+    'splits, cross-sectional and panel data, dicts in several orders with foreign entries; bit-for-bit reproduction of the engine\'s order of additions by the Float model from the real per-row / per-individual simulated values; '
+    'all 8 option cells + NegativeLikelihood + check_derivatives + aliases on every object (bit for bit against Likelihood.likelihoodAndDerivatives / negF / negDerivs); histories '
+    '(edits, several objects, bootstrap, quick_estimate) against the closed form of the current table and Sess.run / reportedLoglike; Database.split against dbSplit.',
     design='DESIGN.md §5 C04',
     technique='Lean 4 theorems (core + Mathlib sums) over an executable model of the row partition and accumulation + differential correspondence with real BIOGEME runs',
-    note='PARTIAL: thread schedules / data races cannot be exhibited (the model uses one accumulator per thread, added after join, as read in biogeme.cc); '
+    note='KNOWN FINDING F-C04-3: an object built BEFORE its Database was edited (scale_column / add_column / remove) keeps the table of its construction in the engine: stale log likelihood, '
+    'scaled = stale sum / current size, simulate out of bounds (proposed_fixes/F-C04-3.diff); session_loglike is therefore PARTIAL (guard: object in step with the table). '
+    'PARTIAL: thread schedules / data races cannot be exhibited (the model uses one accumulator per thread, added after join, as read in biogeme.cc); '
     'the C++ engine is modelled, not verified; float addition is not associative (oracle tolerance 1e-10*N*max|term|).',
 )
 
@@ -55,15 +74,19 @@ TRUSTED = [
     'absence of data races between engine threads (each thread owns its accumulator; results are added after pthread_join) - not expressible in the model',
     'per-row values l_n, w_n, g_n, h_n are taken from the real code (simulate / disaggregate evaluation); their correctness is C01/C02',
     'R vs IEEE double: theorems are over R; the oracle uses the tolerance below',
+    'histories: that theC.setData copies the frame (the engine never sees a later edit) and that simulate evaluates the engine\'s copy are read off the observed behaviour (stale objects), not verified; '
+    'the bootstrap samples of the real run are drawn by numpy.random, those of the model are arbitrary resamplings (bootstrap_restores holds for all of them)',
+    'likelihood_finite_difference_hessian is compared with the analytical Hessian at 1e-3 relative only (accuracy of finite differences is C02)',
+    'Database.split with groups: only the partition / additivity oracle (the slices by group ids are not modelled); BIOGEME.validate is not driven',
     'the value of an individual of panel data (PanelLikelihoodTrajectory: product over its rows) is taken from the real code and compared with the sum of the cross-sectional per-row values of the same formula (1e-9 relative); the operator itself is not modelled',
 ]
-ASSUMPTIONS = ['N >= 1 (Database refuses an empty table)', 'the keys of a dict are distinct (hypothesis of C04.beta_vector_order)', 'panel data: the rows of an individual are consecutive (Database.panel refuses other tables); the weight formula of panel data is a constant (the engine attaches no row to it)', 'cpu_count() >= 1', 'per-row Hessians are symmetric (hypothesis of C04.hessian_sum)']
+ASSUMPTIONS = ['N >= 1 (Database refuses an empty table)', 'histories: the table is edited through the Database API only (scale_column, add_column, define_variable, remove), not by assigning to database.data directly', 'Database.split: at most as many slices as rows (hypothesis k <= N of db_split_validation_sum: no empty slice)', 'the keys of a dict are distinct (hypothesis of C04.beta_vector_order)', 'panel data: the rows of an individual are consecutive (Database.panel refuses other tables); the weight formula of panel data is a constant (the engine attaches no row to it)', 'cpu_count() >= 1', 'per-row Hessians are symmetric (hypothesis of C04.hessian_sum)']
 RULE = (
     'table (1-40 rows, shuffled index labels) x formula family {col, quad, logit, expmix} x weight {none, column, expression} x thread counts '
     '{1,2,3,N-1,N,N+1,2N,0} x 2 permutations x one 2-4 way split; per evaluated object 1-2 dicts of the parameter point (own names alphabetical / reversed / shuffled / as typed, '
     '0-3 foreign entries first / last / anywhere, or one entry missing) handed to simulate and beta_values_dict_to_list, and the point set by name as initial values; '
     'panel tables (1-12 individuals of 1-4 rows, unsorted ids, constant weight or none) with the same formula family, all entry points scaled and unscaled, thread counts relative to the number of individuals, '
-    'one reordering keeping individuals consecutive, one split into 2-3 sets of individuals; sequences simulate / likelihood / estimate(with and without bootstrap) / likelihood / simulate on one object; non-trivial = >= 2 rows and (T >= 2 or non-identity permutation or split)'
+    'one reordering keeping individuals consecutive, one split into 2-3 sets of individuals; sequences simulate / likelihood / estimate(with and without bootstrap) / likelihood / simulate on one object (cross-sectional and panel); on every object with parameters all 8 cells scaled x hessian x bhhh, and once per case check_derivatives, finite-difference Hessian, deprecated aliases, null log likelihood; histories on one Database (4-12 rows, labels shuffled): 2-3 objects (weighted or not, threads 1/2/3/0/N+1, with / without audit) x 1-3 edits {scale_column, remove, define_variable / add_column} x estimate {bootstrap, plain, quick} x queries (one cell of the option matrix + both likelihoods + simulate) on objects in step with the table, one history in three also on objects built before an edit (own process); Database.split with 2-5 slices, with / without groups; non-trivial = >= 2 rows and (T >= 2 or non-identity permutation or split)'
 )
 
 WHERE_RETHREAD = 'simulate after number_of_threads was changed (engine thread state shared with the likelihood)'
@@ -72,6 +95,7 @@ WHERE_SEQ = 'sequence of simulate / calculate_likelihood / estimate on one BIOGE
 MATCHERS = {
     'rethread': lambda case: isinstance(case, dict) and 'rethread' in case,
     'after_bootstrap': lambda case: isinstance(case, dict) and str(case.get('step', '')).startswith('after-bootstrap'),
+    'stale_object': lambda case: isinstance(case, dict) and 'hist_ops' in case and 'stale object' in str(case.get('step', '')),
 }
 
 NAME_POOL = ['b10', 'b2', 'alpha', 'zeta', 'B_TIME', 'asc', 'Zb', 'a', 'beta_9', 'beta_10']
@@ -177,7 +201,7 @@ def make_biogeme(database, case, T, via='kwarg'):
     return bio.BIOGEME(database, formulas)
 
 
-def evaluate(database, case, T, via='kwarg', derivs=True, dicts=None, init_items=None):
+def evaluate(database, case, T, via='kwarg', derivs=True, dicts=None, init_items=None, extras=True):
     """drive the real code for one object: returns a JSON-able record"""
     toml = TOML.format(T=T if via == 'toml' else 5)
     panel = is_panel(case)
@@ -197,10 +221,31 @@ def evaluate(database, case, T, via='kwarg', derivs=True, dicts=None, init_items
         if panel:
             out['imap'] = [[int(i), int(r.iloc[0]), int(r.iloc[1])] for i, r in database.individualMap.iterrows()]
         if derivs and names:
-            r = B.calculate_likelihood_and_derivatives(x, scaled=False, hessian=True, bhhh=True)
-            rs = B.calculate_likelihood_and_derivatives(x, scaled=True, hessian=True, bhhh=True)
-            out['d'] = {'f': float(r.function), 'g': np.asarray(r.gradient).tolist(), 'h': np.asarray(r.hessian).tolist(), 'b': np.asarray(r.bhhh).tolist()}
-            out['ds'] = {'f': float(rs.function), 'g': np.asarray(rs.gradient).tolist(), 'h': np.asarray(rs.hessian).tolist(), 'b': np.asarray(rs.bhhh).tolist()}
+            # the whole option matrix of the derivatives entry point (8 cells); a matrix that was not
+            # requested is not filled by the engine and is not recorded
+            cells = []
+            for sc in (False, True):
+                for hs in (False, True):
+                    for bh in (False, True):
+                        r = B.calculate_likelihood_and_derivatives(x, scaled=sc, hessian=hs, bhhh=bh)
+                        cells.append({'scaled': sc, 'hessian': hs, 'bhhh': bh, 'f': float(r.function), 'g': np.asarray(r.gradient).tolist(),
+                                      'h': np.asarray(r.hessian).tolist() if hs else None, 'b': np.asarray(r.bhhh).tolist() if bh else None})
+            out['cells'] = cells
+            full = {c['scaled']: c for c in cells if c['hessian'] and c['bhhh']}
+            out['d'] = {k: full[False][k] for k in ('f', 'g', 'h', 'b')}
+            out['ds'] = {k: full[True][k] for k in ('f', 'g', 'h', 'b')}
+            # secondary entry points, clients of one cell each (once per case: `extras`)
+            import warnings
+
+            with warnings.catch_warnings():
+                warnings.simplefilter('ignore')
+                ra = B.calculateLikelihoodAndDerivatives(x, scaled=True, hessian=False, bhhh=True)
+                out['alias'] = {'f': float(ra.function), 'g': np.asarray(ra.gradient).tolist(), 'b': np.asarray(ra.bhhh).tolist(),
+                                'L': float(B.calculateLikelihood(x, scaled=True)), 'threads': int(B.numberOfThreads)}
+            if extras:
+                cd = B.check_derivatives(x, verbose=False)
+                out['checkd'] = {'f': float(cd[0]), 'g': np.asarray(cd[1]).tolist(), 'h': np.asarray(cd[2]).tolist()}
+                out['fdh'] = np.asarray(B.likelihood_finite_difference_hessian(x)).tolist()
             # the function handed to the optimiser (negative_likelihood.py)
             from biogeme.negative_likelihood import NegativeLikelihood
 
@@ -215,6 +260,13 @@ def evaluate(database, case, T, via='kwarg', derivs=True, dicts=None, init_items
             fgh = fresh().f_g_h()
             out['neg'] = {'f': f_only, 'fg_f': float(fg.function), 'g': np.asarray(fg.gradient).tolist(),
                           'h': np.asarray(fgh.hessian).tolist(), 'fgh_f': float(fgh.function), 'gh': np.asarray(fgh.gradient).tolist()}
+        if not panel and case['weight'] is None:
+            # the log likelihood of the null model (equal probabilities over the available alternatives): one more
+            # value "reported for the data set", computed through the aggregating path of the calculator
+            from biogeme.expressions import Variable as _V
+
+            out['null'] = float(B.calculate_null_loglikelihood({1: 1, 2: _V('Z') > 0.5, 3: _V('Y') > 0}))
+            out['null_zy'] = [list(case['table']['cols']['Z']), list(case['table']['cols']['Y'])]
         # simulate refuses, on panel data, any formula without a trajectory operator (a constant weight):
         # the per-individual values then come from the object without the weight formula
         simB, simcase = B, case
@@ -257,11 +309,11 @@ def evaluate(database, case, T, via='kwarg', derivs=True, dicts=None, init_items
     return out
 
 
-def evaluate_safe(res, database, case, T, via, desc, derivs=True, dicts=None, init_items=None):
+def evaluate_safe(res, database, case, T, via, desc, derivs=True, dicts=None, init_items=None, extras=True):
     """a Python-level exception of the real code on a valid case is a failure of the property's entry points"""
     iso_f.note(desc, 'calculate_likelihood / simulate')
     try:
-        return evaluate(database, case, T, via, derivs, dicts, init_items)
+        return evaluate(database, case, T, via, derivs, dicts, init_items, extras)
     except Exception as e:  # noqa: BLE001
         res.violate(f'the likelihood entry points raise {type(e).__name__}: {str(e)[:200]} on a valid table', desc, core.exc_kind(e), 'a value', where='calculate_likelihood / simulate')
         return None
@@ -454,6 +506,49 @@ def oracle_object(rec, case_desc, res, where):
             b = np.asarray(rec['ds'][k], dtype=float)
             if a.shape != b.shape or not np.allclose(a, b, rtol=1e-14, atol=0.0):
                 fails.append((f'scaled {k} = {k} / sample size', rec['ds'][k], a.tolist()))
+    if 'null' in rec:
+        res.tally('secondary entry points: calculate_null_loglikelihood')
+        e_null = -math.fsum(math.log(1.0 + (1.0 if z > 0.5 else 0.0) + (1.0 if y > 0 else 0.0)) for z, y in zip(*rec['null_zy']))
+        if not abs(rec['null'] - e_null) <= 1e-12 * max(1.0, abs(e_null)) * N:
+            fails.append(('null log likelihood = sum over the observations of -log(number of available alternatives)', rec['null'], e_null))
+    if 'cells' in rec:
+        res.tally('option matrix: objects questioned in all 8 cells scaled x hessian x bhhh')
+        if 'checkd' in rec:
+            res.tally('secondary entry points: check_derivatives, finite-difference Hessian')
+        cells = {(c['scaled'], c['hessian'], c['bhhh']): c for c in rec['cells']}
+        opt = lambda key: f'scaled={key[0]}, hessian={key[1]}, bhhh={key[2]}'  # noqa: E731
+        for key, c in cells.items():
+            sc, hs, bh = key
+            # every cell against the unscaled cell that requests the same matrices: all returned quantities / N
+            u = cells[(False, hs, bh)]
+            for k, nm in (('f', 'function'), ('g', 'gradient'), ('h', 'Hessian'), ('b', 'BHHH')):
+                if c[k] is None:
+                    continue
+                a = np.asarray(u[k], dtype=float) / (N if sc else 1)
+                b = np.asarray(c[k], dtype=float)
+                if a.shape != b.shape or not np.allclose(a, b, rtol=1e-14, atol=0.0):
+                    fails.append((f'{nm} returned with {opt(key)} = the sum over the observations{" / sample size" if sc else ""}', c[k], a.tolist()))
+            # the function value and the gradient do not depend on the matrices requested; a requested matrix
+            # does not depend on the other one
+            ref = cells[(sc, True, True)]
+            for k, nm in (('f', 'function'), ('g', 'gradient'), ('h', 'Hessian'), ('b', 'BHHH')):
+                if c[k] is not None and not bits_equal(c[k], ref[k]):
+                    fails.append((f'{nm} returned with {opt(key)} = {nm} returned when both matrices are requested', c[k], ref[k]))
+        if not abs(cells[(False, False, False)]['f'] - exp) <= tol:
+            fails.append(('function value of calculate_likelihood_and_derivatives (no matrix requested) = the same sum', cells[(False, False, False)]['f'], exp))
+    if 'alias' in rec:
+        al, c = rec['alias'], {(c['scaled'], c['hessian'], c['bhhh']): c for c in rec['cells']}[(True, False, True)]
+        if not (bits_equal([al['f']], [c['f']]) and bits_equal(al['g'], c['g']) and bits_equal(al['b'], c['b']) and bits_equal([al['L']], [rec['Ls']]) and al['threads'] == rec['threads']):
+            fails.append(('the deprecated aliases (calculateLikelihoodAndDerivatives, calculateLikelihood, numberOfThreads) report what the entry points report', al, {'f': c['f'], 'g': c['g'], 'b': c['b'], 'L': rec['Ls'], 'threads': rec['threads']}))
+    if 'checkd' in rec:
+        cd = rec['checkd']
+        if not (bits_equal([cd['f']], [rec['d']['f']]) and bits_equal(cd['g'], rec['d']['g']) and bits_equal(cd['h'], rec['d']['h'])):
+            fails.append(('check_derivatives reports the unscaled function, gradient and Hessian', cd, {k: rec['d'][k] for k in 'fgh'}))
+    if 'fdh' in rec:
+        a, b = np.asarray(rec['fdh'], dtype=float), np.asarray(rec['d']['h'], dtype=float)
+        sc_ = max(1.0, float(np.abs(b).max()) if b.size else 1.0, float(np.abs(np.asarray(rec['d']['g'])).max()) if b.size else 1.0)
+        if a.shape != b.shape or not np.all(np.abs(a - b) <= 1e-3 * sc_):
+            fails.append(('finite-difference Hessian of the log likelihood ~ the unscaled Hessian (1e-3 relative to the largest entry)', a.tolist(), b.tolist()))
     if 'neg' in rec:
         ng = rec['neg']
         for k in ('f', 'fg_f', 'fgh_f'):
@@ -524,10 +619,16 @@ def oracle_derivs(rec, pr, case_desc, res, where):
     fails = []
     scale = max(1.0, float(np.abs(w[:, None, None] * h).max()) if h.size else 1.0, float(np.abs(eb).max()) if eb.size else 1.0)
     tol = 1e-10 * N * scale
-    for k, e, name in (('g', eg, 'gradient'), ('h', eh, 'Hessian'), ('b', eb, 'BHHH')):
-        a = np.asarray(rec['d'][k], dtype=float)
-        if a.shape != e.shape or not np.all(np.abs(a - e) <= tol):
-            fails.append((f'{name} = weighted sum of the per-observation {name if k != "b" else "outer products g g^T"}', a.tolist(), e.tolist()))
+    cells = rec.get('cells') or [dict(rec['d'], scaled=False, hessian=True, bhhh=True)]
+    for c in cells:
+        den = N if c['scaled'] else 1
+        for k, e, name in (('g', eg, 'gradient'), ('h', eh, 'Hessian'), ('b', eb, 'BHHH')):
+            if c[k] is None:
+                continue
+            a = np.asarray(c[k], dtype=float)
+            if a.shape != e.shape or not np.all(np.abs(a - e / den) <= tol / den):
+                fails.append((f'{name} (scaled={c["scaled"]}, hessian={c["hessian"]}, bhhh={c["bhhh"]}) = weighted sum of the per-observation {name if k != "b" else "outer products g g^T"}'
+                              f'{" / sample size" if c["scaled"] else ""}', a.tolist(), (e / den).tolist()))
     for what, obs, expd in fails:
         res.violate(what, case_desc, obs, expd, where=where)
     return fails
@@ -553,13 +654,15 @@ def model_requests(rec, pr, param, cpu):
     ]
     if 'd' in rec and pr is not None and 'g' in pr:
         K = len(rec['names'])
-        for scaled in (False, True):
-            reqs.append(dict({
-                'op': 'derivs', 'K': K, 'T': rec['threads'], 'scaled': scaled,
-                'w': None if w is None else [f2b(v) for v in w],
+        body = {'K': K, 'w': None if w is None else [f2b(v) for v in w],
                 'g': [[f2b(v) for v in row] for row in pr['g']],
-                'h': [[[f2b(v) for v in r2] for r2 in m] for m in pr['h']],
-            }, **data))
+                'h': [[[f2b(v) for v in r2] for r2 in m] for m in pr['h']]}
+        if 'cells' in rec and data:
+            # the whole option matrix + the optimiser's functions in one request
+            reqs.append(dict(body, op='optmatrix', l=[f2b(v) for v in l], param=param, cpu=cpu, **data))
+        else:
+            for scaled in (False, True):
+                reqs.append(dict(body, op='derivs', T=rec['threads'], scaled=scaled, **data))
     return reqs
 
 
@@ -610,7 +713,9 @@ def compare_model(ctx, res, rec, pr, param, desc):
         ms = b2f(ans[1]['value']) if 'value' in ans[1] else None
         if ms is None or not bits_equal([ms], [rec['Ls']]):
             res.diverge('calculate_likelihood(scaled=True) vs Likelihood.calculateLikelihood (bit for bit)', desc, ms, rec['Ls'])
-        if len(ans) > 2:
+        if len(ans) == 3:
+            compare_matrix(res, rec, ans[2], desc)
+        elif len(ans) > 3:
             for a, key in ((ans[2], 'd'), (ans[3], 'ds')):
                 for mk, rk, nm in (('grad', 'g', 'gradient'), ('hess', 'h', 'Hessian'), ('bhhh', 'b', 'BHHH')):
                     mvv = [[b2f(v) for v in row] for row in a[mk]] if mk != 'grad' else [b2f(v) for v in a[mk]]
@@ -618,6 +723,38 @@ def compare_model(ctx, res, rec, pr, param, desc):
                         res.diverge(f'{nm} ({"scaled" if key == "ds" else "unscaled"}) vs Likelihood.{mk}Entry in the engine order (bit for bit)', desc, mvv, rec[key][rk])
 
     ctx.batch.add_many(reqs, cb)
+
+
+def unbits(v):
+    if v is None:
+        return None
+    if isinstance(v, list):
+        return [unbits(u) for u in v]
+    return b2f(v)
+
+
+def compare_matrix(res, rec, ans, desc):
+    """Likelihood.likelihoodAndDerivatives (all 8 cells), negF, negDerivs vs the real entry points, bit for bit"""
+    if 'cells' not in ans:
+        res.diverge('calculate_likelihood_and_derivatives vs Likelihood.likelihoodAndDerivatives', desc, ans, 'values')
+        return
+    real = {(c['scaled'], c['hessian'], c['bhhh']): c for c in rec['cells']}
+    for mc in ans['cells']:
+        key = (mc['scaled'], mc['hessian'], mc['bhhh'])
+        rc, mo = real[key], mc['out']
+        for k, nm in (('f', 'function'), ('g', 'gradient'), ('h', 'Hessian'), ('b', 'BHHH')):
+            mv = unbits(mo[k])
+            if (mv is None) != (rc[k] is None) or (mv is not None and not bits_equal(mv, rc[k])):
+                res.diverge(f'{nm} of calculate_likelihood_and_derivatives(scaled={key[0]}, hessian={key[1]}, bhhh={key[2]}) vs Likelihood.likelihoodAndDerivatives in the engine order (bit for bit)', desc, mv, rc[k])
+    if 'neg' in rec:
+        ng = rec['neg']
+        pairs = [('_f', unbits(ans['negf']), ng['f']), ('_f_g function', unbits(ans['negfg']['f']), ng['fg_f']), ('_f_g gradient', unbits(ans['negfg']['g']), ng['g']),
+                 ('_f_g_h function', unbits(ans['negfgh']['f']), ng['fgh_f']), ('_f_g_h gradient', unbits(ans['negfgh']['g']), ng['gh']), ('_f_g_h hessian', unbits(ans['negfgh']['h']), ng['h'])]
+        for nm, mv, rv in pairs:
+            if mv is None or not bits_equal(mv, rv):
+                res.diverge(f'NegativeLikelihood.{nm} vs Likelihood.negF / negDerivs (bit for bit)', desc, mv, rv)
+        if ans['negfg']['h'] is not None or ans['negfg']['b'] is not None or ans['negfgh']['b'] is not None:
+            res.diverge('NegativeLikelihood: matrices that are not requested', desc, ans, None)
 
 
 def free_names(case):
@@ -662,7 +799,7 @@ def check_case(ctx, res, case, threads=None, n_perm=2, do_split=True, rng=None, 
         via = 'toml' if rng.random() < 0.3 else 'kwarg'
         d = db.Database('t', make_df(table))
         dicts, init_items = dict_streams(rng, case, n_dicts, forced)
-        rec = evaluate_safe(res, d, case, T, via, describe(case, threads=T, via=via), dicts=dicts, init_items=init_items)
+        rec = evaluate_safe(res, d, case, T, via, describe(case, threads=T, via=via), dicts=dicts, init_items=init_items, extras=not base)
         if rec is None:
             return
         desc = describe(case, threads=T, via=via)
@@ -769,7 +906,14 @@ def rethread_worker(payload):
         names = list(B.free_beta_names)
         x = [float(case['x'][n]) for n in names]
         before = float(B.calculate_likelihood(x, scaled=False))
-        B.number_of_threads = T1
+        if payload.get('alias'):
+            import warnings as _w
+
+            with _w.catch_warnings():
+                _w.simplefilter('ignore')
+                B.numberOfThreads = T1  # the obsolete spelling of the same parameter
+        else:
+            B.number_of_threads = T1
         after_set = float(B.calculate_likelihood(x, scaled=False))
         sim = B.simulate(dict(zip(names, x)))
         l, w = sim_lw(sim, case)
@@ -777,8 +921,8 @@ def rethread_worker(payload):
     return {'before': before, 'after_set': after_set, 'after_sim': after_sim, 'l': l, 'w': w}
 
 
-def check_rethread(res, case, T0, T1):
-    payload = {'case': case, 'rethread': [T0, T1]}
+def check_rethread(res, case, T0, T1, alias=False):
+    payload = {'case': case, 'rethread': [T0, T1], 'alias': alias}
     out = core.run_isolated('props.c04', 'rethread_worker', payload)
     desc = describe(case, rethread=[T0, T1])
     res.count({'rethread': desc}, nontrivial=True)
@@ -806,10 +950,18 @@ def check_rethread(res, case, T0, T1):
 SEQ_TOML = TOML.replace('save_iterations = "False"', 'save_iterations = "False"\nbootstrap_samples = {B}') + '[Output]\ngenerate_html = "False"\ngenerate_pickle = "False"\n'
 
 
-def gen_seq_case(rng, bootstrap):
+def gen_seq_case(rng, bootstrap, panel=False):
     N = rng.randint(3, 12)
-    return {'table': gen_table(rng, N), 'b0': rng.randint(-8, 8) / 8.0, 'weight': rng.choice([None, 'W']), 'np_seed': rng.randint(1, 10**6),
+    case = {'table': gen_table(rng, N), 'b0': rng.randint(-8, 8) / 8.0, 'weight': rng.choice([None, 'W']), 'np_seed': rng.randint(1, 10**6),
             'samples': rng.choice([2, 3]), 'threads': rng.choice([1, 2, 3, 0]), 'bootstrap': bootstrap}
+    if panel:
+        # individuals of 1-3 consecutive rows, ids in arbitrary order; the bootstrap resamples the individual map
+        ids, pool = [], rng.sample(range(-9, 30), N)
+        while len(ids) < N:
+            ids.extend([float(pool[len(ids)])] * min(rng.choice([1, 2, 2, 3]), N - len(ids)))
+        case['seq_ids'] = ids
+        case['weight'] = None  # simulate refuses a weight formula without trajectory on panel data
+    return case
 
 
 def run_sequence(case):
@@ -820,9 +972,17 @@ def run_sequence(case):
     np.random.seed(case['np_seed'])
     out = []
     with core.scratch(SEQ_TOML.format(T=5, B=case['samples'])):
-        d = db.Database('t', make_df(case['table']))
+        df = make_df(case['table'])
+        if case.get('seq_ids'):
+            df['ID'] = [float(v) for v in case['seq_ids']]
+        d = db.Database('t', df)
         b = Beta('b', 0.0, None, None, 0)
         ll = Variable('L') - (b - Variable('X')) * (b - Variable('X'))
+        if case.get('seq_ids'):
+            from biogeme.expressions import PanelLikelihoodTrajectory, exp, log
+
+            d.panel('ID')
+            ll = log(PanelLikelihoodTrajectory(exp(ll)))
         formulas = {'log_like': ll}
         if case['weight']:
             formulas['weight'] = Variable('W') + 0.25
@@ -859,16 +1019,28 @@ def check_sequence(ctx, res, case):
         res.violate(f'a sequence of simulate / likelihood / estimate on one object raises {type(e).__name__}: {str(e)[:150]}', dict(desc0, step='sequence'), core.exc_kind(e), 'values', where=WHERE_SEQ)
         return
     res.count({'sequence': desc0}, nontrivial=True)
-    res.tally('sequence:bootstrap' if case['bootstrap'] else 'sequence:estimate')
+    panel = bool(case.get('seq_ids'))
+    res.tally(('sequence:bootstrap' if case['bootstrap'] else 'sequence:estimate') + (':panel' if panel else ''))
     cols = case['table']['cols']
-    N = len(cols['L'])
+    nrows = len(cols['L'])
     b0 = case['b0']
     # straight from the table (all values dyadic: exact)
-    exp_l = [cols['L'][i] - (b0 - cols['X'][i]) ** 2 for i in range(N)]
-    exp_w = [cols['W'][i] + 0.25 for i in range(N)] if case['weight'] else None
+    row_l = [cols['L'][i] - (b0 - cols['X'][i]) ** 2 for i in range(nrows)]
+    row_g = [-2.0 * (b0 - cols['X'][i]) for i in range(nrows)]
+    if panel:
+        # one observation = one individual (sorted ids): log prod_t exp(l_t) = sum_t l_t
+        ids = case['seq_ids']
+        groups = [[p for p in range(nrows) if ids[p] == i] for i in sorted(set(ids))]
+        exp_l = [math.fsum(row_l[p] for p in ps) for ps in groups]
+        exp_gi = [math.fsum(row_g[p] for p in ps) for ps in groups]
+        exp_w = None
+    else:
+        exp_l, exp_gi = row_l, row_g
+        exp_w = [cols['W'][i] + 0.25 for i in range(nrows)] if case['weight'] else None
+    N = len(exp_l)
     exp_L = wsum(exp_w, exp_l)
-    exp_g = math.fsum((1.0 if exp_w is None else exp_w[i]) * (-2.0 * (b0 - cols['X'][i])) for i in range(N))
-    tol = tol_for(exp_l if exp_w is None else [a * c for a, c in zip(exp_w, exp_l)], N)
+    exp_g = math.fsum((1.0 if exp_w is None else exp_w[i]) * exp_gi[i] for i in range(N))
+    tol = tol_for(exp_l if exp_w is None else [a * c for a, c in zip(exp_w, exp_l)], N) + (1e-9 * N * max(1.0, max(abs(v) for v in exp_l)) if panel else 0.0)
     for st in steps:
         desc = dict(desc0, step=st['step'])
         where = WHERE_BOOT if st['step'].startswith('after-bootstrap') else WHERE_SEQ
@@ -880,8 +1052,399 @@ def check_sequence(ctx, res, case):
             elif not abs(st['g'] - exp_g) <= 1e-9 * N * max(1.0, abs(exp_g)):
                 res.violate(f'gradient ({st["step"]}) = weighted sum of the per-observation gradients', desc, st['g'], exp_g, where=where)
         else:
-            if not bits_equal(st['l'], exp_l) or (exp_w is not None and not bits_equal(st['w'], exp_w)):
+            if (not near(st['l'], exp_l) if panel else not bits_equal(st['l'], exp_l)) or (exp_w is not None and not bits_equal(st['w'], exp_w)):
                 res.violate(f'simulate ({st["step"]}) reports, row by row, the per-observation values of the data set', desc, {'l': st['l'], 'w': st['w']}, {'l': exp_l, 'w': exp_w}, where=where)
+
+
+
+# ----------------------------------------------------------------------------- histories: one Database, several objects, edits in between
+
+WHERE_HIST = 'history on one Database shared by several BIOGEME objects (table edited in between, estimate with / without bootstrap, then likelihood / simulate)'
+WHERE_STALE = 'likelihood of a BIOGEME object built before the table of its Database was edited (the engine keeps the table of the construction)'
+HCOLS = ['L', 'X', 'W', 'D', 'S']
+STALE_QUERIES = True  # objects built before the last edit are questioned too (oracle only, own process: known finding F-C04-3)
+
+
+def hist_apply(tab, op):
+    """closed form of the edits on a table given as a list of rows (lists of column values); returns a new table"""
+    k = op['k']
+    if k == 'scale':
+        return [[v * op['s'] if j == op['col'] else v for j, v in enumerate(r)] for r in tab]
+    if k == 'remove':
+        return [list(r) for r in tab if r[op['col']] == 0.0]
+    if k == 'addcol':
+        return [list(r) + [r[op['a']] * op['c'] + r[op['b']]] for r in tab]
+    return tab
+
+
+def gen_history(rng, stale=False):
+    N = rng.randint(4, 12)
+    flags = [0.0] * N
+    for i in rng.sample(range(N), rng.randint(1, N - 2)):
+        flags[i] = 1.0
+    rows = [[dy(rng, -4, 1), dy(rng, -2, 2), rng.choice([0.25, 0.5, 1.0, 1.0, 2.0, 3.5, 0.0]), flags[i], dy(rng, -1, 1)] for i in range(N)]
+    index = list(range(N))
+    if rng.random() < 0.5:
+        index = rng.sample(range(3 * N), N)
+    ops, shadow, nobj, removed, ncol = [], [list(r) for r in rows], 0, False, len(HCOLS)
+    edited_since = {}  # object -> an edit happened since its engine received the table
+
+    def build():
+        nonlocal nobj
+        ops.append({'k': 'build', 'audit': rng.random() < 0.85, 'weighted': rng.random() < 0.6, 'T': rng.choice([1, 2, 3, 0, len(shadow) + 1])})
+        edited_since[nobj] = False
+        nobj += 1
+
+    def edit():
+        nonlocal shadow, removed, ncol
+        kind = rng.choice(['scale', 'scale', 'remove', 'addcol'] if not removed else ['scale', 'scale', 'addcol', 'remove'])
+        if kind == 'scale':
+            col = rng.choice([0, 1, 2])
+            op = {'k': 'scale', 'col': col, 's': rng.choice([0.5, 2.0, 0.25, 4.0] + ([-1.0, -0.5] if col < 2 else []))}
+        elif kind == 'remove':
+            op = {'k': 'remove', 'col': 3}
+            removed = True
+        else:
+            op = {'k': 'addcol', 'a': rng.choice([0, 1, 2]), 'b': rng.choice([0, 1, 2, 4]), 'c': rng.choice([0.5, 2.0, -1.0, 1.5]), 'name': f'V{ncol}', 'via': rng.choice(['define_variable', 'add_column'])}
+            ncol += 1
+        ops.append(op)
+        shadow = hist_apply(shadow, op)
+        for o in edited_since:
+            edited_since[o] = True
+
+    def estimate(k, boot):
+        op = {'k': 'estimate', 'obj': k, 'boot': None, 'quick': False}
+        if boot:
+            op['boot'] = [[rng.randrange(len(shadow)) for _ in range(len(shadow))] for _ in range(rng.choice([2, 3]))]
+            edited_since[k] = False
+        else:
+            op['quick'] = rng.random() < 0.4
+        ops.append(op)
+
+    def query(k):
+        if edited_since[k] and not stale:
+            return
+        ops.append({'k': 'query', 'obj': k, 'scaled': rng.random() < 0.5, 'hessian': rng.random() < 0.5, 'bhhh': rng.random() < 0.6})
+
+    build()
+    if rng.random() < 0.5:
+        query(0)
+    for _ in range(rng.randint(1, 2)):
+        edit()
+    if stale:
+        query(0)
+    build()
+    if rng.random() < 0.3:
+        query(1)
+    estimate(1, boot=rng.random() < 0.75)
+    query(1)
+    if rng.random() < 0.6:
+        edit()
+        if rng.random() < 0.6:
+            build()
+        k = rng.randrange(nobj)
+        estimate(k, boot=True)  # an object built before the edit is handed the current table by the bootstrap
+        query(k)
+        query(nobj - 1)
+        query(rng.randrange(nobj))
+    return {'hist_rows': rows, 'hist_index': index, 'b0': rng.randint(-8, 8) / 8.0, 'hist_ops': ops, 'np_seed': rng.randint(1, 10**6)}
+
+
+def run_history(case):
+    """the real code: one Database, the objects and edits of the history; one record per query"""
+    import warnings
+
+    import pandas as pd
+    import biogeme.biogeme as bio
+    import biogeme.database as db
+    from biogeme.expressions import Beta, Variable
+
+    np.random.seed(case['np_seed'])
+    out = []
+    nboot = max([len(o['boot']) for o in case['hist_ops'] if o['k'] == 'estimate' and o['boot']] + [2])
+    with core.scratch(SEQ_TOML.format(T=5, B=nboot)), warnings.catch_warnings():
+        warnings.simplefilter('ignore')
+        rows = case['hist_rows']
+        d = db.Database('t', pd.DataFrame({c: [float(r[j]) for r in rows] for j, c in enumerate(HCOLS)}, index=list(case['hist_index'])))
+        objs = []
+        names = list(HCOLS)
+        for op in case['hist_ops']:
+            k = op['k']
+            if k == 'build':
+                b = Beta('b', 0.0, None, None, 0)
+                formulas = {'log_like': Variable('L') - (b - Variable('X')) * (b - Variable('X'))}
+                if op['weighted']:
+                    formulas['weight'] = Variable('W') + 0.25
+                B = bio.BIOGEME(d, formulas, number_of_threads=op['T'], skip_audit=not op['audit'])
+                B.modelName = f'hist{len(objs)}'
+                objs.append((B, op))
+            elif k == 'scale':
+                d.scale_column(HCOLS[op['col']], op['s'])
+            elif k == 'remove':
+                d.remove(Variable(HCOLS[op['col']]))
+            elif k == 'addcol':
+                e = Variable(names[op['a']]) * op['c'] + Variable(names[op['b']])
+                if op['via'] == 'define_variable':
+                    d.define_variable(op['name'], e)
+                else:
+                    d.add_column(e, op['name'])
+                names.append(op['name'])
+            elif k == 'estimate':
+                B = objs[op['obj']][0]
+                if op['boot']:
+                    B.bootstrap_samples = len(op['boot'])
+                    B.estimate(run_bootstrap=True)
+                elif op.get('quick'):
+                    B.quick_estimate()
+                else:
+                    B.estimate(run_bootstrap=False)
+            elif k == 'query':
+                B, bop = objs[op['obj']]
+                x = [case['b0']]
+                L_, Ls_ = float(B.calculate_likelihood(x, scaled=False)), float(B.calculate_likelihood(x, scaled=True))
+                r = B.calculate_likelihood_and_derivatives(x, scaled=op['scaled'], hessian=op['hessian'], bhhh=op['bhhh'])
+                sim = B.simulate({'b': case['b0']})
+                out.append({'L': L_, 'Ls': Ls_,
+                            'f': float(r.function), 'g': float(r.gradient[0]), 'h': float(r.hessian[0][0]) if op['hessian'] else None, 'b': float(r.bhhh[0][0]) if op['bhhh'] else None,
+                            'l': [float(v) for v in sim['log_like'].values], 'w': [float(v) for v in sim['weight'].values] if bop['weighted'] else None,
+                            'sim_index': [int(i) for i in sim.index], 'N': int(d.get_sample_size()),
+                            'table': [[float(v) for v in row] for row in d.data[names].values.tolist()], 'index': [int(i) for i in d.data.index],
+                            'same_frame': d.data is d.fullData})
+    return out
+
+
+def history_worker(payload):
+    """(fresh process) a history that questions objects built before an edit: the engine may die"""
+    import logging
+    import warnings
+
+    warnings.simplefilter('ignore')
+    logging.disable(logging.WARNING)
+    try:
+        return {'recs': run_history(payload['case'])}
+    except Exception as e:  # noqa: BLE001
+        return {'error': [core.exc_kind(e), f'{type(e).__name__}: {str(e)[:150]}']}
+
+
+STALE_STEP = 'history (objects built before an edit are questioned: stale object)'
+
+
+def history_is_stale(case):
+    """does the history question an object whose engine received the table before the last edit?"""
+    synced, n = set(), 0
+    for op in case['hist_ops']:
+        if op['k'] == 'build':
+            synced.add(n)
+            n += 1
+        elif op['k'] in ('scale', 'remove', 'addcol'):
+            synced = set()
+        elif op['k'] == 'estimate' and op['boot']:
+            synced.add(op['obj'])
+        elif op['k'] == 'query' and op['obj'] not in synced:
+            return True
+    return False
+
+
+def check_history(ctx, res, case, isolate=False):
+    desc0 = {k: case[k] for k in ('hist_rows', 'hist_index', 'b0', 'hist_ops', 'np_seed')}
+    if isolate or history_is_stale(case):
+        out = core.run_isolated('props.c04', 'history_worker', {'case': case})
+        if '__error__' in out:
+            res.count({'history': desc0}, nontrivial=True)
+            res.tally('history:stale:process-dies')
+            stale_ = history_is_stale(case)
+            res.violate(f'likelihood / simulate after a history of edits on one Database: the process dies ({out["__error__"]})', dict(desc0, step=STALE_STEP if stale_ else 'history'), out['__error__'], 'the values of the current table',
+                        where=WHERE_STALE if stale_ else WHERE_HIST)
+            return
+        if 'error' in out:
+            res.violate(f'a history of objects / edits / estimations on one Database raises {out["error"][1]}', dict(desc0, step=STALE_STEP), out['error'][0], 'values', where=WHERE_STALE)
+            return
+        recs = out['recs']
+    else:
+        iso_f.note(dict(desc0, step='history'), WHERE_HIST)
+        try:
+            recs = run_history(case)
+        except Exception as e:  # noqa: BLE001
+            res.violate(f'a history of objects / edits / estimations on one Database raises {type(e).__name__}: {str(e)[:150]}', dict(desc0, step='history'), core.exc_kind(e), 'values', where=WHERE_HIST)
+            return
+    ops = case['hist_ops']
+    res.count({'history': desc0}, nontrivial=True)
+    b0 = case['b0']
+    # closed form, independent of the library and of the model: the table after the edits made so far
+    shadow, index = [list(map(float, r)) for r in case['hist_rows']], list(case['hist_index'])
+    synced, qi, queries = set(), 0, []
+    nobj = 0
+    for op in ops:
+        k = op['k']
+        if k == 'build':
+            synced.add(nobj)
+            nobj += 1
+        elif k in ('scale', 'remove', 'addcol'):
+            if k == 'remove':
+                index = [i for i, r in zip(index, shadow) if r[op['col']] == 0.0]
+            shadow = hist_apply(shadow, op)
+            synced = set()
+            res.tally('history:edit:' + k)
+        elif k == 'estimate':
+            if op['boot']:
+                synced.add(op['obj'])
+            res.tally('history:estimate:' + ('bootstrap' if op['boot'] else 'quick' if op.get('quick') else 'plain'))
+        elif k == 'query':
+            rec = recs[qi]
+            qi += 1
+            weighted = [o for o in ops if o['k'] == 'build'][op['obj']]['weighted']
+            stale = op['obj'] not in synced
+            where = WHERE_STALE if stale else WHERE_HIST
+            step = f'query {qi} ({"stale object" if stale else "object in step with the table"})'
+            desc = dict(desc0, step=step)
+            res.tally('history:query:' + ('stale' if stale else 'synced') + f':scaled={op["scaled"]},hessian={op["hessian"]},bhhh={op["bhhh"]}')
+            N = len(shadow)
+            exp_l = [r[0] - (b0 - r[1]) * (b0 - r[1]) for r in shadow]
+            exp_w = [r[2] + 0.25 for r in shadow]
+            ww = exp_w if weighted else [1.0] * N
+            gi = [2.0 * (b0 - r[1]) * -1.0 for r in shadow]
+            exp = {'L': math.fsum(a * c for a, c in zip(ww, exp_l)), 'g': math.fsum(a * c for a, c in zip(ww, gi)),
+                   'h': math.fsum(a * -2.0 for a in ww), 'b': math.fsum(a * c * c for a, c in zip(ww, gi))}
+            tol = 1e-10 * N * max([1.0] + [abs(a * c) for a, c in zip(ww, exp_l)] + [abs(a * c * c) for a, c in zip(ww, gi)])
+            den = N if op['scaled'] else 1
+            if rec['table'] != shadow or rec['index'] != index:
+                res.violate(f'the table of the data base after the edits of the history ({step})', desc, {'table': rec['table'], 'index': rec['index']}, {'table': shadow, 'index': index}, where=WHERE_HIST)
+                continue
+            if not bits_equal(rec['l'], exp_l) or (weighted and not bits_equal(rec['w'], exp_w)) or rec['sim_index'] != index:
+                res.violate(f'simulate reports, row by row, the per-observation values of the current table ({step})', desc, {'l': rec['l'], 'w': rec['w'], 'index': rec['sim_index']}, {'l': exp_l, 'w': exp_w if weighted else None, 'index': index}, where=where)
+            if rec['N'] != N:
+                res.violate(f'sample size = number of rows of the current table ({step})', desc, rec['N'], N, where=where)
+            if not abs(rec['L'] - exp['L']) <= tol:
+                res.violate(f'log likelihood = sum over the rows of the CURRENT table of weight x per-observation value ({step})', desc, rec['L'], exp['L'], where=where)
+            if not abs(rec['Ls'] - exp['L'] / N) <= tol / N:
+                res.violate(f'scaled log likelihood = that sum / current sample size ({step})', desc, rec['Ls'], exp['L'] / N, where=where)
+            for key, ek, nm in (('f', 'L', 'function'), ('g', 'g', 'gradient'), ('h', 'h', 'Hessian'), ('b', 'b', 'BHHH')):
+                if rec[key] is not None and not abs(rec[key] - exp[ek] / den) <= tol / den:
+                    res.violate(f'{nm} of calculate_likelihood_and_derivatives(scaled={op["scaled"]}, hessian={op["hessian"]}, bhhh={op["bhhh"]}) = weighted sum over the rows of the CURRENT table{" / sample size" if op["scaled"] else ""} ({step})',
+                                desc, rec[key], exp[ek] / den, where=where)
+            queries.append((rec, stale, desc))
+    if ctx is None or not queries:
+        return
+    # the same history in the session model (Model/LikSession.lean)
+    req = {'op': 'session', 'table': [[f2b(float(v)) for v in r] for r in case['hist_rows']], 'b0': f2b(b0), 'cl': 0, 'cx': 1, 'cw': 2, 'cpu': mp.cpu_count(),
+           'ops': [dict(o, s=f2b(o['s'])) if o['k'] == 'scale' else dict(o, c=f2b(o['c'])) if o['k'] == 'addcol' else o for o in ops]}
+
+    def cb(ans):
+        qs = ans[0].get('queries')
+        if qs is None or len(qs) != len(queries):
+            res.diverge('history vs Likelihood.Sess.run', desc0, ans[0], len(queries))
+            return
+        for (rec, stale, desc), a in zip(queries, qs):
+            if a['synced'] == stale:
+                res.diverge('objects in step with the table vs Likelihood.synced', desc, a['synced'], not stale)
+            if unbits(a['data']) != rec['table']:
+                res.diverge('Database.data after scale_column / remove / add_column vs the edits of Likelihood.Sess', desc, unbits(a['data']), rec['table'])
+            if (unbits(a['full']) == unbits(a['data'])) < rec['same_frame']:
+                res.diverge('Database.fullData is Database.data vs Sess.aliased', desc, [unbits(a['full']), unbits(a['data'])], rec['same_frame'])
+            if stale:
+                continue  # known finding of the code as it is: oracle only
+            if unbits(a['engine']) != rec['table']:
+                res.diverge('Likelihood.Sess: engine of an object in step with the table holds the current table', desc, unbits(a['engine']), rec['table'])
+            if not bits_equal([unbits(a['L'])], [rec['L']]) or not bits_equal([unbits(a['Ls'])], [rec['Ls']]):
+                res.diverge('calculate_likelihood after the history vs Likelihood.Sess.reportedLoglike (bit for bit)', desc, [unbits(a['L']), unbits(a['Ls'])], [rec['L'], rec['Ls']])
+
+    ctx.batch.add_many([req], cb)
+
+
+
+# ----------------------------------------------------------------------------- Database.split: parts whose values are added
+
+WHERE_SPLIT = 'Database.split: estimation / validation sets'
+
+
+def check_db_split(ctx, res, rng, forced=None):
+    """`Database.split(slices[, groups])`: the validation sets are a partition of the rows, every estimation set is the
+    rest of the rows; the log likelihoods of the parts add up to the log likelihood of the table"""
+    import biogeme.database as db
+
+    if forced is not None:
+        case = forced
+        N = len(case['table']['index'])
+        slices, groups, np_seed = (forced['db_split'][k] for k in ('slices', 'groups', 'np_seed'))
+    else:
+        N = rng.choice([2, 3, 4, 5, 7, 10, 16])
+        case = gen_case(rng, N=N, formula=rng.choice(['quad', 'logit', 'col']))
+        groups = 'CH' if rng.random() < 0.35 else None
+        n_groups = len(set(case['table']['cols']['CH']))
+        top = n_groups if groups else N
+        if top < 2:
+            groups, top = None, N
+        slices = rng.randint(2, min(5, top))
+        np_seed = rng.randint(1, 10**6)
+    desc = describe(case, db_split={'slices': slices, 'groups': groups, 'np_seed': np_seed})
+    iso_f.note(desc, WHERE_SPLIT)
+    table = case['table']
+    labels = [int(i) for i in table['index']]
+    try:
+        np.random.seed(np_seed)
+        full = db.Database('t', make_df(table))
+        pairs = full.split(slices, groups=groups)
+    except Exception as e:  # noqa: BLE001
+        res.violate(f'Database.split raises {type(e).__name__}: {str(e)[:150]} on a valid request', desc, core.exc_kind(e), 'estimation / validation sets', where=WHERE_SPLIT)
+        return
+    res.count({'db_split': desc}, nontrivial=True)
+    res.tally(f'db.split:{slices}' + (':groups' if groups else ''))
+    ref = evaluate_safe(res, db.Database('t', make_df(table)), case, rng.choice([1, 2, 3, 0]), 'kwarg', desc, derivs=False)
+    if ref is None:
+        return
+    terms = ref['l'] if ref['w'] is None else [a * b for a, b in zip(ref['w'], ref['l'])]
+    tol = 2 * tol_for(terms, N)
+    pos = {lab: p for p, lab in enumerate(labels)}
+
+    def part_table(df):
+        ps = [pos[int(i)] for i in df.index]
+        return ps, sub_table(table, ps)
+
+    val_rows, val_L = [], []
+    if len(pairs) != slices:
+        res.violate('Database.split returns one (estimation, validation) pair per slice', desc, len(pairs), slices, where=WHERE_SPLIT)
+        return
+    for i, pr_ in enumerate(pairs):
+        vals = {}
+        for name, df in (('estimation', pr_.estimation), ('validation', pr_.validation)):
+            ps, st = part_table(df)
+            if df[COLS].values.tolist() != [[float(st['cols'][c][r]) for c in COLS] for r in range(len(ps))]:
+                res.violate(f'the rows of the {name} set {i} are rows of the table (values follow their labels)', desc, df[COLS].values.tolist(), 'rows of the table', where=WHERE_SPLIT)
+                return
+            vals[name] = (ps, st)
+        ev, vv = vals['estimation'][0], vals['validation'][0]
+        if sorted(ev + vv) != list(range(N)):
+            res.violate(f'estimation set {i} + validation set {i} = every row of the table exactly once', desc, {'estimation': ev, 'validation': vv}, list(range(N)), where=WHERE_SPLIT)
+            return
+        Ls = {}
+        for name, (ps, st) in vals.items():
+            if not ps:
+                Ls[name] = 0.0
+                continue
+            T = rng.choice([1, 2, 3, len(ps) + 1, 0])
+            rec = evaluate_safe(res, db.Database(name, make_df(st)), dict(case, table=st), T, 'kwarg', dict(desc, part=[name, i], threads=T), derivs=False)
+            if rec is None:
+                return
+            oracle_object(rec, dict(desc, part=[name, i], threads=T), res, WHERE_SPLIT)
+            compare_model(ctx, res, rec, None, T, dict(desc, part=[name, i], threads=T))
+            Ls[name] = rec['L']
+        if not abs(Ls['estimation'] + Ls['validation'] - ref['L']) <= tol:
+            res.violate(f'log likelihood of estimation set {i} + log likelihood of validation set {i} = log likelihood of the table', desc, Ls, ref['L'], where=WHERE_SPLIT)
+        val_rows.extend(vv)
+        val_L.append(Ls['validation'])
+    if groups is None and sorted(val_rows) == list(range(N)):
+        # the slices of numpy.array_split and the concatenations, against Likelihood.dbSplit on the same shuffle
+        real_pairs = [[part_table(p_.estimation)[0], part_table(p_.validation)[0]] for p_ in pairs]
+
+        def cb(ans, real_pairs=real_pairs):
+            if ans[0].get('pairs') != real_pairs:
+                res.diverge('Database.split (sizes of the slices, estimation = the other slices in order) vs Likelihood.dbSplit', desc, ans[0].get('pairs'), real_pairs)
+
+        ctx.batch.add_many([{'op': 'dbsplit', 'shuffled': val_rows, 'k': slices}], cb)
+    if sorted(val_rows) != list(range(N)):
+        res.violate('the validation sets of Database.split are a partition of the rows (every row in exactly one)', desc, sorted(val_rows), list(range(N)), where=WHERE_SPLIT)
+    elif not abs(math.fsum(val_L) - ref['L']) <= tol:
+        res.violate('sum of the log likelihoods of the validation sets = log likelihood of the table', desc, {'parts': val_L, 'sum': math.fsum(val_L)}, ref['L'], where=WHERE_SPLIT)
 
 
 # ----------------------------------------------------------------------------- panel data: blocks of individuals
@@ -1026,7 +1589,7 @@ def check_panel_case(ctx, res, case, threads=None, rng=None, n_dicts=1):
         except Exception as e:  # noqa: BLE001
             res.violate(f'Database.panel raises {type(e).__name__}: {str(e)[:150]} on a table whose individuals are consecutive', desc, core.exc_kind(e), 'a panel data base', where=WHERE_PANEL)
             return
-        rec = evaluate_safe(res, d, case, T, via, desc, dicts=dicts, init_items=init_items)
+        rec = evaluate_safe(res, d, case, T, via, desc, dicts=dicts, init_items=init_items, extras=not base)
         if rec is None:
             return
         res.count({'case': describe(case), 'T': T}, nontrivial=M >= 2 and nrows > M and (T >= 2 or T == 0))
@@ -1142,6 +1705,26 @@ RETHREAD_CORPUS = [
 ]
 
 
+_HROWS = [[1.0, 0.5, 1.0, 0.0, 0.0], [2.0, 1.0, 2.0, 1.0, 0.5], [3.0, -1.0, 0.5, 0.0, -0.5], [4.0, 2.0, 1.0, 0.0, 1.0], [5.0, 0.25, 3.0, 1.0, 0.0], [6.0, 0.0, 1.0, 1.0, 0.25], [7.0, 1.0, 1.0, 0.0, -1.0]]
+HIST_CORPUS = [
+    # a first object rebinds Database.data (fullData stays behind), the table is rescaled and rows are removed, a second
+    # object is built, estimated with bootstrap and questioned: the engine must have been refilled from the CURRENT table
+    {'hist_rows': _HROWS, 'hist_index': [3, 0, 11, 6, 2, 9, 5], 'b0': 0.5, 'np_seed': 41, 'hist_ops': [
+        {'k': 'build', 'audit': True, 'weighted': False, 'T': 2}, {'k': 'query', 'obj': 0, 'scaled': False, 'hessian': False, 'bhhh': False},
+        {'k': 'scale', 'col': 0, 's': 2.0}, {'k': 'remove', 'col': 3},
+        {'k': 'build', 'audit': True, 'weighted': True, 'T': 3},
+        {'k': 'estimate', 'obj': 1, 'boot': [[0, 0, 1, 3], [2, 1, 1, 0]], 'quick': False},
+        {'k': 'query', 'obj': 1, 'scaled': True, 'hessian': False, 'bhhh': True},
+        {'k': 'estimate', 'obj': 0, 'boot': [[3, 3, 0, 1], [1, 2, 0, 0]], 'quick': False},
+        {'k': 'query', 'obj': 0, 'scaled': True, 'hessian': True, 'bhhh': False}]},
+    # F-C04-3: the object is built BEFORE the table is rescaled and rows are removed, then questioned
+    {'hist_rows': _HROWS, 'hist_index': [0, 1, 2, 3, 4, 5, 6], 'b0': 0.5, 'np_seed': 42, 'hist_ops': [
+        {'k': 'build', 'audit': True, 'weighted': True, 'T': 2},
+        {'k': 'scale', 'col': 0, 's': 2.0}, {'k': 'remove', 'col': 3},
+        {'k': 'query', 'obj': 0, 'scaled': True, 'hessian': True, 'bhhh': True}]},
+]
+
+
 def corpus_case(c):
     rng = core.rng_for('C04-corpus', c['seed'])
     case = gen_case(rng, N=c['N'], formula=c['formula'], adversarial=c['adversarial'])
@@ -1152,6 +1735,13 @@ def corpus_case(c):
 def check_impl(ctx) -> Result:
     res = Result(rule=RULE, tolerance='oracle: |L - fsum(w*l)| <= 1e-10*N*max(1,|term|); scaled: rel 1e-15; model vs code: bit for bit (engine order of additions); dict variants of one point on one object: bit for bit; panel per-individual values vs sums of cross-sectional per-row values: 1e-9 relative')
     rng = ctx.rng
+    import time
+
+    marks = [('start', time.time())]
+
+    def mark(name):
+        marks.append((name, time.time()))
+
     for c in CORPUS:
         case, crng = corpus_case(c)
         check_case(ctx, res, case, threads=c['threads'], rng=crng)
@@ -1167,21 +1757,38 @@ def check_impl(ctx) -> Result:
         case = gen_case(crng, N=c['N'], formula='col')
         case['weight'] = None
         check_rethread(res, case, c['T0'], c['T1'])
+    mark('corpus')
     for _ in range(ctx.n(1, 10)):
         N = rng.randint(2, 12)
         T0, T1 = rng.sample(range(1, N + 2), 2)
         case = gen_case(rng, N=N, formula=rng.choice(['col', 'quad']))
-        check_rethread(res, case, T0, T1)
-    for _ in range(ctx.n(12, 300)):
-        check_panel_threads(ctx, res, rng)
+        check_rethread(res, case, T0, T1, alias=rng.random() < 0.5)
+    mark('rethread')
     for _ in range(ctx.n(10, 150)):
+        check_panel_threads(ctx, res, rng)
+    for _ in range(ctx.n(7, 70)):
         check_panel_case(ctx, res, gen_panel_case(rng))
-        if len([v for v in res.violations if v.get('where') not in (WHERE_RETHREAD, WHERE_BOOT)]) > 5:
+        if len([v for v in res.violations if v.get('where') not in (WHERE_RETHREAD, WHERE_BOOT, WHERE_STALE)]) > 5:
             break
+    mark('panel')
     # one object used for several calls in a row, with an estimation in between (F-C04-2: with bootstrap)
-    for i in range(ctx.n(6, 120)):
+    for i in range(ctx.n(6, 80)):
         check_sequence(ctx, res, gen_seq_case(rng, bootstrap=i % 2 == 0))
-    n_cases = ctx.n(100, 1600)
+    # the same on panel data: the bootstrap resamples the individual map (sample_individual_map_with_replacement)
+    for i in range(ctx.n(3, 40)):
+        check_sequence(ctx, res, gen_seq_case(rng, bootstrap=i % 3 != 2, panel=True))
+    mark('sequences')
+    # one Database shared by several objects, edited in between, estimated with bootstrap, then questioned
+    for case in HIST_CORPUS:
+        check_history(ctx, res, case)
+        res.tally('corpus')
+    for i in range(ctx.n(10, 150)):
+        check_history(ctx, res, gen_history(rng, stale=STALE_QUERIES and i % 3 == 2 and i < 30))  # stale ones run in a process of their own
+    mark('histories')
+    for _ in range(ctx.n(4, 60)):
+        check_db_split(ctx, res, rng)
+    mark('db.split')
+    n_cases = ctx.n(60, 650)
     for i in range(n_cases):
         adversarial = i % 3 == 0
         case = gen_case(rng, formula='col' if adversarial and rng.random() < 0.7 else None, adversarial=adversarial)
@@ -1194,9 +1801,12 @@ def check_impl(ctx) -> Result:
         res.tally(f'formula={case["formula"]}')
         res.tally(f'weight={case["weight"]}')
         res.tally('N=1' if N == 1 else 'N=2-5' if N <= 5 else 'N=6-16' if N <= 16 else 'N=17-40')
-        if len([v for v in res.violations if v.get('where') not in (WHERE_RETHREAD, WHERE_BOOT)]) > 5:
+        if len([v for v in res.violations if v.get('where') not in (WHERE_RETHREAD, WHERE_BOOT, WHERE_STALE)]) > 5:
             break
+    mark('cases')
     ctx.batch.flush()
+    mark('lean-batches')
+    res.notes.append('wall seconds per stream: ' + ', '.join(f'{n}={t - marks[i][1]:.1f}' for i, (n, t) in enumerate(marks[1:])))
     return res
 
 
@@ -1214,6 +1824,14 @@ def search(ctx, res, broken):
     c2 = C2()
     c2.batch = NoBatch()
     c2.rng = rng
+    for i in range(12):
+        # histories on one data base (each in a process of its own: a stale engine may die)
+        r2 = Result()
+        check_history(None, r2, gen_history(rng, stale=False), isolate=True)
+        r2.violations = [v for v in r2.violations if v.get('where') != WHERE_STALE]
+        if r2.violations:
+            res.violations.extend(r2.violations[:1])
+            return
     for i in range(150):
         case = gen_panel_case(rng) if i % 3 == 1 else gen_case(rng, adversarial=i % 4 == 0)
         r2 = Result()
@@ -1226,6 +1844,27 @@ def search(ctx, res, broken):
 def replay_impl(ctx, obj):
     case = obj.get('case') or {}
     out = {'replayed': obj.get('what')}
+    if 'db_split' in case:
+        class NoBatch0:
+            def add_many(self, reqs, cb):
+                pass
+
+        class C0:
+            pass
+
+        c0 = C0()
+        c0.batch = NoBatch0()
+        r = Result()
+        check_db_split(c0, r, core.rng_for('C04-replay', 0), forced={k: v for k, v in case.items() if k not in ('part', 'threads')})
+        out.update({'property_fails': bool(r.violations), 'violations': r.violations[:3]})
+        return out
+    if 'hist_ops' in case:
+        r = Result()
+        check_history(None, r, {k: v for k, v in case.items() if k != 'step'})
+        if case.get('step') and case['step'] != 'history':
+            r.violations = [v for v in r.violations if v['case'].get('step') == case['step']]
+        out.update({'property_fails': bool(r.violations), 'violations': r.violations[:3]})
+        return out
     if 'np_seed' in case:
         r = Result()
         check_sequence(None, r, {k: v for k, v in case.items() if k != 'step'})
